@@ -1362,7 +1362,20 @@ void save_option_file(FILE *pfile, bool with_doc, bool minimal)
 
          if (option->type() == OT_STRING)
          {
-            fprintf(pfile, "\"%s\"", val.c_str());
+            // split_args() drops a backslash and takes the character after it as it is
+            fputc('"', pfile);
+
+            for (const char ch : val)
+            {
+               if (  ch == '\\'
+                  || ch == '"')
+               {
+                  fputc('\\', pfile);
+               }
+               fputc(ch, pfile);
+            }
+
+            fputc('"', pfile);
          }
          else
          {
